@@ -183,6 +183,11 @@ def e2e(case):
     sweep = None
     if case["idx"] % 3 == 0:
         dirs = [wd, (wd + 100.0) % 360.0, (wd + 215.0) % 360.0]
+        slow = case["idx"] % 6 == 3
+        if slow:
+            # a slowly veering wind: 0.4 degrees per record ending on the direction under test; every record is its own footprint, so
+            # the last one must be the footprint of a single run for that direction (the peak-region bearing cannot resolve 1.2 degrees)
+            dirs = [(wd - 1.2) % 360.0, (wd - 0.8) % 360.0, (wd - 0.4) % 360.0, wd]
         raw2 = json_copy(raw)
         raw2["met"]["wind_dir"] = dirs
         cfg2 = parse_config_dict(raw2)
@@ -230,6 +235,12 @@ def e2e(case):
     if err > 5.0:
         viol.append({"what": "footprint_not_upwind_of_tower", "bearing_deg": bearing, "wind_dir": wd, "error_deg": err, "peak_cells": ncell, "G": G, "case": desc})
     nsweep = 0
+    if sweep is not None and len(sweep[0]) == 4:
+        fl = np.asarray(sweep[1][-1]["flx"], dtype=float)
+        e_sl = float(np.max(np.abs(fl - f))) / (float(np.max(np.abs(f))) or 1.0) if fl.shape == f.shape else float("inf")
+        if not e_sl <= (1e-9 if desc["precision"] == "double" else 1e-5):
+            viol.append({"what": "footprint_of_a_series_step_is_not_that_steps_footprint", "driver": "run_bldfm_timeseries", "step": 3,
+                         "rel": e_sl, "directions": sweep[0], "case": desc})
     if sweep is not None:
         for k, (d_k, r_k) in enumerate(zip(*sweep)):
             fk = np.asarray(r_k["flx"], dtype=float)
